@@ -43,7 +43,51 @@ func genGobValue(r *hx.RNG) *decimal.Decimal {
 	return x
 }
 
+// c17Huge: a well-formed payload (valid header, every word below the base, normalized top word, non-zero lowest word)
+// whose mantissa holds a little more than 2^32 digits - more than any precision field can announce. Whatever
+// GobDecode answers, the receiver must not hold more digits than its precision. 1.8 GB of zero bytes (untouched pages) in, 1.8 GB of words decoded.
+func c17Huge(c *hx.Ctx, r *hx.RNG) {
+	n := (1<<32)/19 + 1 + r.Range(0, 3)
+	wrapped := uint32(uint64(n) * 19)
+	prec := wrapped + uint32(r.Range(0, 300))
+	mode, acc := r.Intn(6), r.Intn(3)
+	b := make([]byte, 10+8*n)
+	b[0], b[1] = 1, byte(mode<<5|acc<<3|1<<1|r.Intn(2))
+	binary.BigEndian.PutUint32(b[2:], prec)
+	binary.BigEndian.PutUint32(b[6:], uint32(int32(r.Range(-50, 50))))
+	binary.BigEndian.PutUint64(b[10:], wb/10+r.U64()%(wb-wb/10))
+	binary.BigEndian.PutUint64(b[len(b)-8:], uint64(r.Range(1, 9)))
+	what := fmt.Sprintf("GobDecode(header %x, then %d mantissa words: a normalized top word, zeros, a lowest word of %d: %d digits, precision field %d)", b[:10], n, b[len(b)-1], uint64(n)*19, prec)
+	c.Note(what)
+	z := new(decimal.Decimal) // (a receiver with a precision would round whatever was accepted)
+	var err error
+	pi := hx.Try(func() { err = z.GobDecode(b) })
+	c.Eval(hx.HashStr(what), true, "hostile/more-than-2^32-digits")
+	if pi != nil {
+		c.Violate("panic", fmt.Sprintf("%s: %s panic %q at %s", what, pi.Class, pi.Text, pi.Stack), "")
+		return
+	}
+	if err != nil {
+		c.Count("hostile_rejected", 1)
+	} else {
+		c.Count("hostile_accepted", 1)
+	}
+	if !z.IsInf() && !z.IsZero() && uint64(z.MinPrec()) > uint64(z.Prec()) {
+		c.Violate("malformed-value", fmt.Sprintf("%s (error=%v) left a value with Prec()=%d and MinPrec()=%d", what, err, z.Prec(), z.MinPrec()), "")
+		return
+	}
+	if z.Prec() < 100000 {
+		if msg := hx.Canonical(z); msg != "" {
+			c.Violate("malformed-value", fmt.Sprintf("%s (error=%v): %s", what, err, msg), "")
+		}
+	}
+}
+
 func c17Case(c *hx.Ctx, r *hx.RNG, idx int64) {
+	if idx%4000000 == 17 {
+		c17Huge(c, r)
+		return
+	}
 	switch k := r.Intn(100); {
 	case k < 25:
 		c17RoundTrip(c, r)
